@@ -134,6 +134,32 @@ def check_welford(ctx):
                                % (getattr(sc, 'q', sc), m2 / n), str(m2 / n), str(getattr(sc, 'q', sc)))
             reqs.append(dict(op='C12.welford', parts=[[q2j(x) for x in p] for p in parts]))
             meta.append((case, got, sc))
+    # the SAME code on floats with a location that is large relative to the spread (the exact run cannot see cancellation
+    # introduced by an algebraically equal rewrite): scale vs the exact population standard deviation of the float inputs
+    import math
+    for _ in range(ctx.budget(20, 300)):
+        if ctx.enough():
+            break
+        n = rng.randint(4, 40)
+        off = rng.choice([0.0, 1e3, 1e6, 1e8])
+        xs = [off + rng.gauss(0, 1) for _ in range(n)]
+        cuts = sorted(rng.sample(range(1, n), rng.randint(0, min(n - 1, 5))))
+        comp = [b - a for a, b in zip([0] + cuts, cuts + [n])]
+        _, d = new_adaptive(1)
+        pos = 0
+        for k in comp:
+            d.add_data(np.array(xs[pos:pos + k]).reshape(-1, 1))
+            pos += k
+        xq = [F(v) for v in xs]
+        mq = sum(xq) / n
+        var = float(sum((v - mq) ** 2 for v in xq) / n)
+        got_sc = float(np.ravel(d.state['scale'])[0])
+        case = dict(kind='welford-floats', data=xs, partition=comp)
+        ctx.case(case, len(comp) >= 2)
+        ctx.count('welford.float_offset', '%g' % off)
+        if var > 0 and not math.isclose(got_sc, math.sqrt(var), rel_tol=1e-5):
+            ctx.fail_input(case, 'adaptive scale on floats = %r, the population standard deviation of the same rows is %r' % (got_sc, math.sqrt(var)),
+                           math.sqrt(var), got_sc)
     if ctx.driver_ok:
         for (case, got, sc), a in zip(meta, ctx.lean.drive(reqs)):
             if 'ok' not in a:
